@@ -43,6 +43,9 @@ func roundTrip(rec *hx.Recorder, fs *gen.FileSpec, labels map[string]int) (strin
 	if eerr != nil {
 		return fmt.Sprintf("Encode failed on an in-domain File: %v", eerr), false
 	}
+	if msg := prof.SpareIntact(in); msg != "" {
+		return "Encode wrote into memory of the caller that is not part of the File: " + msg, false
+	}
 	// the bytes do not depend on what kind of writer receives them
 	if msg := gen.CheckWriterKind(os.Getenv("VERIF_BUILD"), buf.Len()+len(fs.Slots), buf.Bytes(), func(w io.Writer) error {
 		again, err := gen.BuildFile(fs)
